@@ -93,7 +93,7 @@ func main() {
 		start := time.Now()
 		c := &Ctx{Repo: abs, VerifDir: *verif, Tier: *tier, Prop: id, Seed: seed}
 		if shared != nil { // reuse loaded packages across properties in 'all' mode
-			c.loaded, c.roots, c.fset, c.prog, c.ssaPkgs, c.gemCache = shared.loaded, shared.roots, shared.fset, shared.prog, shared.ssaPkgs, shared.gemCache
+			c.loaded, c.roots, c.fset, c.prog, c.ssaPkgs, c.gemCache, c.patterns = shared.loaded, shared.roots, shared.fset, shared.prog, shared.ssaPkgs, shared.gemCache, shared.patterns
 		}
 		func() {
 			defer func() {
